@@ -18,6 +18,8 @@ Extraction "c01_model.ml"
   c01_dg_mv c01_dg_mtv c01_dg_umv c01_dg_umtv c01_dg_umhv c01_dg_mmv c01_dg_mmtv c01_dg_mmhv
   c01_dg_usmv c01_dg_usmtv c01_dg_usmhv c01_dg_mul c01_dg_transposed c01_dg_to_dense c01_assign_dense
   c01_tw_mv c01_tw_mtv c01_tw_asdense
+  c01_copy_into c01_assign_dense_into c01_assign_diag_into c01_dm_prepare c01_dm_assign_dense c01_dm_assign_diag c01_fm_assign_rows
+  c01_copy_assign c01_fv1_assign c01_cell_assign c01_cell_fill c01_param_diag_assign_zerofill
   c01_fill c01_vassign c01_mfill c01_mult_transposed c01_norm_sum c01_norm_max c01_mnorm_sum c01_mnorm_inf
   c01_Z_abs c01_Z_abs2 c01_G_absreal c01_G_abs2 c01_Z_cmp4
   c01_kdesc_of c01_kernel_gen c01_kernel_objs c01_dg_kernel_gen c01_rightmultiply_self_literal c01_leftmultiply_self_literal
